@@ -193,6 +193,20 @@ CHECKS["C18"] = dict(engine="bytes-sockets", ref="4 (Engine BYTES, C18)",
          "within 4 loop cycles (never blocking), BusyResourceError for the second user, send() returns with an empty user-space "
          "write buffer (back-pressure), no deadlock / busy loop. Exploration level.")
 
+CHECKS["C14"] = dict(engine="threads-to_thread", ref="4 (Engine THREADS, C14)",
+    technique="deterministic simulation of real threads: baton-passing scheduler (one managed thread runs at a time, seeded "
+              "choice at every yield point) + virtual-time loop, with cancellations injected while thread functions run",
+    text="Real anyio worker threads, limiter and from_thread call-backs; blocking in queue.get / Future.result replaced by "
+         "predicate parks so that a seeded scheduler owns every interleaving and detects 'all threads parked' as a deadlock. "
+         "1-6 caller tasks x 1-2 run_sync calls (limiter 1/2/3/default, abandon_on_cancel on/off, three scope shapes), a timer "
+         "cancels the scope at a seeded virtual time, thread-function plans with gates, naps, check_cancelled, from_thread.run "
+         "(lock / sleep / failure) and run_sync. Oracles: value / exception identity, context variable visible, running "
+         "non-abandoned calls <= limiter total and tokens returned on every path, without abandon the result is delivered and "
+         "the pending cancellation hits the next checkpoint (shield respected), with abandon the caller is released within 4 "
+         "cycles, check_cancelled() raises iff the host's scope chain is effectively cancelled at that instant, call-backs "
+         "return the right value or are cancelled with the host, and everything terminates (deadlock / busy loop detection). "
+         "Exploration level.")
+
 NOT_YET = "check not built yet in this snapshot of /verif (work in progress; see DESIGN.md section 4 for the plan)"
 
 
@@ -217,7 +231,7 @@ def main():
     engines = {}
     for pid, c in CHECKS.items():
         engines.setdefault(c["engine"], []).append(pid)
-    paths = {"sync-permits": "engines/permits.py", "sc": "engines/sc.py", "sync-conditions": "engines/conds.py", "sync-checkpoints": "engines/checkpoints.py", "mem": "engines/mem.py", "sc-deadlines": "engines/deadlines.py", "func-itertools": "engines/func_iter.py", "func-lru": "engines/func_lru.py", "bytes-wrappers": "engines/bytes_buffered.py", "bytes-tls": "engines/bytes_tls.py", "bytes-sockets": "engines/bytes_sock.py"}
+    paths = {"sync-permits": "engines/permits.py", "sc": "engines/sc.py", "sync-conditions": "engines/conds.py", "sync-checkpoints": "engines/checkpoints.py", "mem": "engines/mem.py", "sc-deadlines": "engines/deadlines.py", "func-itertools": "engines/func_iter.py", "func-lru": "engines/func_lru.py", "bytes-wrappers": "engines/bytes_buffered.py", "bytes-tls": "engines/bytes_tls.py", "bytes-sockets": "engines/bytes_sock.py", "threads-to_thread": "engines/threads_to.py"}
     try:
         hooks = [l.split()[0] for l in subprocess.run(
             ["git", "-C", "/repo", "log", "--format=%h %s", "--grep=^hook:"], capture_output=True, text=True
